@@ -11,3 +11,4 @@ open Cst.C18
 #print axioms stored_valid
 #print axioms dropped_exactly_once
 #print axioms try_set_under_read_lock_unsound
+#print axioms data_sharing_facts
